@@ -349,7 +349,29 @@ def _closure_id_of(body, op):
     if op["k"] not in ("copy", "move") or op["place"]["proj"]:
         return None
     ty = body["locals"][op["place"]["local"]]["ty"]
-    return ty.get("closure")
+    if ty.get("closure"):
+        return ty.get("closure")
+    # `.map(&f)` with `let f = |x| ..`: a reference to a closure variable (possibly captured)
+    if ty["s"].startswith("&") and _CLOSURE_BY_TYPE.get(ty["s"].lstrip("&").replace("mut ", "").strip()):
+        return _CLOSURE_BY_TYPE[ty["s"].lstrip("&").replace("mut ", "").strip()]
+    if ty["s"].startswith("&"):
+        cur = op["place"]["local"]
+        for _ in range(4):
+            d = _single_assign(body, cur)
+            if d is None or d[0] != "assign":
+                return None
+            rv = d[1]
+            if rv["k"] == "ref" and not [e for e in rv["place"]["proj"] if e["k"] != "deref"]:
+                t2 = body["locals"][rv["place"]["local"]]["ty"]
+                if t2.get("closure"):
+                    return t2["closure"]
+                cur = rv["place"]["local"]
+                continue
+            if rv["k"] == "use" and rv["op"]["k"] in ("copy", "move") and not rv["op"]["place"]["proj"]:
+                cur = rv["op"]["place"]["local"]
+                continue
+            return None
+    return None
 
 
 def _new_local(body, ty="?"):
@@ -554,8 +576,16 @@ _MATCH_COMBINATORS = {
 }
 
 
+_CLOSURE_BY_TYPE = {}
+
+
 def desugar_combinators(raw):
     bodies = {b["id"]: b for b in raw["bodies"]}
+    _CLOSURE_BY_TYPE.clear()
+    for b in raw["bodies"]:
+        for l in b["locals"]:
+            if l["ty"].get("closure"):
+                _CLOSURE_BY_TYPE[l["ty"]["s"]] = l["ty"]["closure"]
     used_closures = set()
     called_closures = set()
     hosts = set()
